@@ -83,6 +83,13 @@ TRUSTED_EXTRA = [
     "_safesum (rules at the top of the file) and the vocabulary of harness/extractors/vcf_decisions.py (source text of each "
     "condition / value -> atom name; the Lean definitions Src.hasAD, adIsTuple, adGiven, adHasSecond, severalAlleles, "
     "onlyAlleleIsRef, depthFrom, altFrom say what each atom means on the model's data)",
+    "harness/yieldtrans.py: the reading of the if / elif / elif chain and of one pass of each arm of the generator "
+    "vcfio._parse_pedigrees (rules at the top of the file) and the vocabulary of harness/extractors/vcf_pedkeys.py (the Lean "
+    "definitions SrcPed.armPairs, yieldOf, consY of Props/C18SrcPed.lean say what each arm / yielded expression means on the "
+    "model's header); harness/pipetrans.py: the reading of how vcfio._choose_samples builds, filters, checks and indexes its "
+    "`pairs` list from `pairs = None` on, and the vocabulary of harness/extractors/vcf_choose.py (SrcChoose.* of "
+    "Props/C18SrcChoose.lean); the statements of _choose_samples BEFORE `pairs = None` (integer selectors, 'id not in the file') "
+    "are tied by the correspondence run only",
     "harness/extractors/vcf_consts.py: which argparse declarations belong to which command (parser variable with "
     "set_defaults(func=_cmd_x) and its argument groups) and the reading of a command's load_het_snps call as positional "
     "binding to the callee's parameter list",
